@@ -97,12 +97,12 @@ func (c *Callback) check(b []byte) bool {
 	}
 
 	if (c.Contains != "" && bytes.Contains(b, c.contains())) &&
-		!(c.NotContains != "" && !bytes.Contains(b, c.notContains())) {
+		!(c.NotContains != "" && bytes.Contains(b, c.notContains())) {
 		return true
 	}
 
 	if (c.ContainsRe != nil && c.ContainsRe.Match(b)) &&
-		!(c.NotContains != "" && !bytes.Contains(b, c.notContains())) {
+		!(c.NotContains != "" && bytes.Contains(b, c.notContains())) {
 		return true
 	}
 
